@@ -1483,6 +1483,18 @@ func (d *Driver) checkInvocations() {
 			delete(pm, "ci")
 			if !SameLax(pm, act, d.resolve) {
 				bad("arguments " + Canon(act) + ", the fork's resolved arguments are " + Canon(Resolve(pm, d.resolve)))
+				continue
+			}
+		}
+		// and exactly (null is not an empty collection here) what mrp resolved for this fork:
+		// the _args file it wrote next to the _invocation
+		if ab, err := os.ReadFile(path.Join(f.Path, "split", "_args")); err == nil {
+			var args map[string]interface{}
+			if json.Unmarshal(ab, &args) == nil {
+				args = StripInternal(args)
+				if !Same(args, act, nil) {
+					bad("arguments " + Canon(act) + ", the _args mrp wrote for the same fork are " + Canon(args))
+				}
 			}
 		}
 	}
